@@ -48,6 +48,10 @@ type Profile struct {
 	// PStopFalse: percent of plugin steps (with a cancel signal) given a stop condition that is a literal
 	// false spelling: a condition that never fires.
 	PStopFalse int
+	// ErrorPathWaits: (Tags profiles of C15) outputs may wait, with !wait-optional, for an error-path stage
+	// of a step (crashed / deploy_failed / a loop's failed). Where such a step never starts the engine
+	// never rules the stage out (known finding KF-C15-1), so only C15 asks for these fields.
+	ErrorPathWaits bool
 	// OptionalRequired: percent of steps (Tags profiles) whose required input `a` is a wait-optional.
 	OptionalRequired int
 	// GuardFaults: percent of enabled conditions that fail to evaluate at run time (division by zero).
@@ -627,7 +631,7 @@ func GenProgram(t *rapid.T, prof *Profile, doc Doc) *Program {
 		}
 		for _, s := range p.Steps {
 			if s.Kind != "plugin" {
-				if s.Kind == "foreach" && g.pct(30, "loop_failed_optional") {
+				if s.Kind == "foreach" && prof.ErrorPathWaits && g.pct(30, "loop_failed_optional") {
 					// the error path of a loop: absent exactly when the loop did not fail
 					fields = append(fields, F("wf_"+s.ID, Opt("wait-optional", StepRef(s.ID, "failed", "error", "errors"))))
 				}
@@ -641,7 +645,7 @@ func GenProgram(t *rapid.T, prof *Profile, doc Doc) *Program {
 			case 7:
 				// an error-path stage of a step that (in these profiles) never takes it: once the step has
 				// ended another way the field is absent
-				if prof.PBad == 0 && prof.PDeployFail == 0 {
+				if prof.ErrorPathWaits && prof.PBad == 0 && prof.PDeployFail == 0 {
 					// (not closed.result: a run that is cancelled closes its steps, and a step that never starts is
 					// closed when the run is torn down - whether that stage occurs is a matter of how the run ends)
 					stage := rapid.SampledFrom([]string{"crashed", "deploy_failed"}).Draw(t, "error_path_stage")
